@@ -905,3 +905,136 @@ Proof.
     + destruct Hor as [->|(Ho & h & Hlt & ->)]; [left; reflexivity|]. right. split; [exact Ho|].
       exists h. split; [lia|reflexivity].
 Qed.
+
+(** ** Part 5: steps and histories *)
+
+Lemma create_lock s m s' : create s m = Some s' -> 50 <= m_lock m.
+Proof.
+  unfold create. destruct (negb (create_basic m)) eqn:Hb; [discriminate|]. apply negb_false_iff in Hb.
+  intros _. exact (proj2 (create_basic_facts m Hb)).
+Qed.
+
+(** a claim is accepted exactly when it presents the pre-image of the lock (bound to the contract's
+    timestamp) of an open contract; its effect is the closing shape *)
+Lemma claim_spec s who id secret : Inv s ->
+  match claim s who id secret with
+  | Some s' => addr_ok who = true /\ exists c, get id (st_contracts s) = Some c /\ c_state c = Open
+                 /\ secret_ok c secret = true /\ close_rel s s' id c Completed
+  | None => addr_ok who = false \/ get id (st_contracts s) = None
+            \/ exists c, get id (st_contracts s) = Some c /\ (c_state c <> Open \/ secret_ok c secret = false)
+  end.
+Proof.
+  intros I. unfold claim. destruct (addr_ok who); simpl; [|left; reflexivity].
+  destruct (get id (st_contracts s)) as [c|] eqn:Hg; [|right; left; reflexivity].
+  destruct (c_state c) eqn:Hst.
+  - destruct (secret_ok c secret) eqn:Hsec; simpl.
+    + destruct (claim_complete s id c I Hg Hst) as (s1 & Hb & R). unfold close_body in Hb. rewrite Hb.
+      split; [reflexivity|]. exists c. auto.
+    + right; right. exists c. auto.
+  - right; right. exists c. split; [reflexivity|]. left. congruence.
+  - right; right. exists c. split; [reflexivity|]. left. congruence.
+Qed.
+
+Lemma close_rel_strict s s' id c st : Strict s -> close_rel s s' id c st -> Strict s'.
+Proof.
+  intros S R id' c' Hg Ho. rewrite (cr_contracts _ _ _ _ _ R), get_set in Hg. rewrite (cr_height _ _ _ _ _ R).
+  destruct (eq_dec id' id) as [->|Hne].
+  - inversion Hg; subst c'. cbn in Ho. destruct (cr_st _ _ _ _ _ R Ho).
+  - exact (S _ _ Hg Ho).
+Qed.
+
+Lemma step_inv s o : Inv s -> Strict s -> wf_op o ->
+  Inv (step s o) /\ Strict (step s o) /\ st_params (step s o) = st_params s.
+Proof.
+  intros I S W. unfold step. destruct o as [m|who id secret|dts]; simpl.
+  - destruct (create s m) as [s'|] eqn:Hc; [|auto].
+    destruct (create_open_rel s m s' I W Hc) as (dr & R). pose proof (create_lock _ _ _ Hc) as Hl.
+    split; [exact (open_rel_inv _ _ _ _ I R)|]. split; [|exact (or_params _ _ _ _ R)].
+    intros id' c' Hg Ho. rewrite (or_contracts _ _ _ _ R), get_set in Hg. rewrite (or_height _ _ _ _ R).
+    destruct (eq_dec id' (id_of m)) as [->|Hne].
+    + inversion Hg; subst c'. cbn. lia.
+    + exact (S _ _ Hg Ho).
+  - pose proof (claim_spec s who id secret I) as Hs. destruct (claim s who id secret) as [s'|]; [|auto].
+    destruct Hs as (_ & c & Hg & Ho & _ & R).
+    split; [exact (close_rel_inv _ _ _ _ _ I R)|]. split; [exact (close_rel_strict _ _ _ _ _ S R)|exact (cr_params _ _ _ _ _ R)].
+  - destruct (adv_spec dts s I S) as (I' & S' & Hp & _). auto.
+Qed.
+
+(** one step never deletes a contract and changes it at most by closing it, if it was open *)
+Lemma step_contract s o : Inv s -> Strict s -> wf_op o -> forall id c, get id (st_contracts s) = Some c ->
+  exists c', get id (st_contracts (step s o)) = Some c'
+    /\ (c' = c \/ (c_state c = Open /\ exists st h, st <> Open /\ c' = close c st h)).
+Proof.
+  intros I S W id c Hg. unfold step. destruct o as [m|who id0 secret|dts]; simpl.
+  - destruct (create s m) as [s'|] eqn:Hc; [|exists c; auto].
+    destruct (create_open_rel s m s' I W Hc) as (dr & R).
+    exists c. split; [|left; reflexivity]. rewrite (or_contracts _ _ _ _ R), get_set_other; [exact Hg|].
+    intros ->. rewrite (or_fresh _ _ _ _ R) in Hg. discriminate.
+  - pose proof (claim_spec s who id0 secret I) as Hs. destruct (claim s who id0 secret) as [s'|]; [|exists c; auto].
+    destruct Hs as (_ & c0 & Hg0 & Ho & _ & R). rewrite (cr_contracts _ _ _ _ _ R), get_set.
+    destruct (eq_dec id id0) as [->|Hne].
+    + rewrite Hg in Hg0. inversion Hg0; subst c0. eexists. split; [reflexivity|]. right. split; [exact Ho|].
+      exists Completed, (st_height s). split; [discriminate|reflexivity].
+    + exists c. auto.
+  - destruct (adv_spec dts s I S) as (_ & _ & _ & Hc). destruct (Hc id c Hg) as (c' & Hg' & Hor).
+    exists c'. split; [exact Hg'|]. destruct Hor as [->|(Ho & h & _ & ->)]; [left; reflexivity|].
+    right. split; [exact Ho|]. exists Refunded, h. split; [discriminate|reflexivity].
+Qed.
+
+Definition params_ok (P : list aparam) : Prop := Forall (fun p => 0 <= ap_limit p /\ 0 <= ap_tbl p) P.
+Definition escrow_empty (b : ledger) : Prop := forall d, bal b ESC d = 0.
+
+Lemma init_assets P d p : get_param P d = Some p -> get d (map (fun p => (ap_denom p, zero_sup)) P) = Some zero_sup.
+Proof.
+  unfold get_param. induction P as [|p0 P IH]; simpl; [discriminate|].
+  destruct (Z.eqb_spec (ap_denom p0) d) as [E|Hne].
+  - intros _. destruct (eq_dec d (ap_denom p0)); [reflexivity|congruence].
+  - intros H. destruct (eq_dec d (ap_denom p0)); [congruence|]. exact (IH H).
+Qed.
+
+Lemma init_inv P b t0 : params_ok P -> escrow_empty b -> Inv (init P b t0) /\ Strict (init P b t0).
+Proof.
+  intros HP HE. split.
+  - unfold init. constructor; sproj; simpl; try tauto; try (intros; discriminate).
+    + intros d p Hp. exists zero_sup. split; [exact (init_assets P d p Hp)|]. cbn.
+      repeat (split; [reflexivity|]).
+      unfold get_param in Hp. apply find_some in Hp. destruct Hp as [Hin _].
+      unfold params_ok in HP. rewrite Forall_forall in HP. destruct (HP p Hin) as [H1 H2].
+      split; [unfold lim_ok; cbn; repeat split; try lia; intros; lia|reflexivity].
+    + constructor.
+  - intros id c Hg. discriminate.
+Qed.
+
+Lemma run_inv : forall ops s, Inv s -> Strict s -> Forall wf_op ops ->
+  Inv (run s ops) /\ Strict (run s ops) /\ st_params (run s ops) = st_params s.
+Proof.
+  unfold run. induction ops as [|o ops IH]; intros s I S W; simpl; [auto|].
+  inversion W as [|? ? Wo Wops]; subst. destruct (step_inv s o I S Wo) as (I1 & S1 & P1).
+  destruct (IH _ I1 S1 Wops) as (I2 & S2 & P2). rewrite P2, P1. auto.
+Qed.
+
+(** reachable states: any history of well-formed operations from genesis *)
+Definition reachable (P : list aparam) (b : ledger) (t0 : Z) (ops : list op) : state := run (init P b t0) ops.
+
+Lemma reach_inv P b t0 ops : params_ok P -> escrow_empty b -> Forall wf_op ops ->
+  Inv (reachable P b t0 ops) /\ Strict (reachable P b t0 ops) /\ st_params (reachable P b t0 ops) = P.
+Proof.
+  intros HP HE W. destruct (init_inv P b t0 HP HE) as [I S].
+  destruct (run_inv ops _ I S W) as (I' & S' & P'). auto.
+Qed.
+
+(** over any further history a contract is never deleted; a closed contract never changes again; an
+    open one stays as it is or is closed exactly once *)
+Lemma run_contract : forall ops s, Inv s -> Strict s -> Forall wf_op ops ->
+  forall id c, get id (st_contracts s) = Some c ->
+  exists c', get id (st_contracts (run s ops)) = Some c'
+    /\ (c' = c \/ (c_state c = Open /\ exists st h, st <> Open /\ c' = close c st h)).
+Proof.
+  unfold run. induction ops as [|o ops IH]; intros s I S W id c Hg; simpl; [exists c; auto|].
+  inversion W as [|? ? Wo Wops]; subst. destruct (step_inv s o I S Wo) as (I1 & S1 & _).
+  destruct (step_contract s o I S Wo id c Hg) as (c1 & Hg1 & Hor1).
+  destruct (IH _ I1 S1 Wops id c1 Hg1) as (c2 & Hg2 & Hor2). exists c2. split; [exact Hg2|].
+  destruct Hor1 as [->|(Ho & st & h & Hst & ->)]; [exact Hor2|].
+  right. split; [exact Ho|]. destruct Hor2 as [->|(Hbad & _)]; [exists st, h; auto|].
+  cbn in Hbad. congruence.
+Qed.
